@@ -294,9 +294,21 @@ def chain_cb(name, exname, fut):
     run_op({"op": "submit", "ex": exname, "task": {"k": "ok", "x": -2}, "id": "chain.%s.%d" % (name, n), "from_callback": True}, Ctx(96))
 
 
-def register_future(name, fut, raising_cb=False, resubmit=None, slow_cb=None, chain=None):
+def factory_cb(name, kw, fut):
+    """A done-callback (run by the manager thread of the instance in use) that asks the factory for an executor with
+    other arguments: the call cannot complete (a thread cannot join itself); what matters is the state it leaves behind."""
+    try:
+        get_reusable_executor(**build_kw(kw))
+        log("factory_cb", fut=name, res="ok")
+    except BaseException as e:  # noqa
+        log("factory_cb", fut=name, res=type(e).__name__, msg=str(e)[:200])
+
+
+def register_future(name, fut, raising_cb=False, resubmit=None, slow_cb=None, chain=None, factory=None):
     with FUT_LOCK:
         FUTS[name] = fut
+    if factory:
+        fut.add_done_callback(functools.partial(factory_cb, name, factory))
     if chain:
         fut.add_done_callback(functools.partial(chain_cb, name, chain))
     if slow_cb:
@@ -431,7 +443,7 @@ def op_submit(op, oid, ctx):
     fut = ex.submit(fn, spec, tid, *lv_tasks.make_args(spec))
     if w:
         WRAPPED_FUTS.setdefault(w["obj"], []).append(fut)
-    register_future(fname, fut, raising_cb=bool(op.get("raising_cb")), resubmit=(op["ex"] if op.get("resubmit_on_break") else None), slow_cb=op.get("slow_cb"), chain=(op["ex"] if op.get("chain_cb") else None))
+    register_future(fname, fut, raising_cb=bool(op.get("raising_cb")), resubmit=(op["ex"] if op.get("resubmit_on_break") else None), slow_cb=op.get("slow_cb"), chain=(op["ex"] if op.get("chain_cb") else None), factory=op.get("factory_cb"))
     remember(op["ex"], ex)
     return {"fut": fname}
 
